@@ -942,6 +942,11 @@ pub fn run_html(case: &HtmlCase, record_calls: bool, emulate_never_mirror: bool)
                 let (chunks, _keep) = make_chunks(&case.input, &case.schedule);
                 let mut stats = RunStats::default();
                 let mut logical = String::new();
+                // (a queue of hundreds of thousands of buffers makes every `peek` linear in a build
+                // with debug assertions — BufferQueue re-checks "no empty buffer" there — so the
+                // queue-everything mode is kept to schedules of at most 4096 chunks)
+                let mode = if *driver_mode == 1 && chunks.len() > 4096 { 2 } else { *driver_mode };
+                let driver_mode = &mode;
                 for ch in chunks {
                     stats.chunks += 1;
                     stats.events += 1;
